@@ -1,8 +1,10 @@
 #!/bin/bash
-# runs the thorough tier of every claimed property, one after the other (for vp run)
+# thorough_all.sh [<prop>...] : runs the thorough tier of the given (default: every claimed) property, one after the other (for vp run)
+# evidence and replays of such a run land in the run's snapshot, not in /verif
 cd "$(dirname "$0")/.."
 ./tools/setup.sh || exit 2
-for p in $(grep -v '^#' tools/claimed.txt); do
+PROPS=${*:-$(grep -v '^#' tools/claimed.txt)}
+for p in $PROPS; do
   echo "=== $p $(date +%T)"
   ./check $p --tier thorough 2>&1 | grep -v "^  \[" | cut -c1-500 | tail -15
   echo "=== $p exit=${PIPESTATUS[0]}"
